@@ -76,7 +76,7 @@ def N(V, clone=False):
     if k == "vdown":
         return ("vdown", N(V[1], clone), V[2])
     if k == "agg":
-        return ("agg", V[1], V[2], V[3], tuple((f, N(v, clone)) for f, v in V[4]))
+        return ("agg", V[1], V[2], V[3], tuple((f, N(v, clone)) for f, v in V[4])) + tuple(V[5:])
     if k == "discr":
         return ("discr", N(V[1], clone))
     if k == "loopvar":
@@ -234,8 +234,8 @@ def canon_bool(V, truth):
     if V[0] == "bin" and V[1] in NEG:
         op, a, b = V[1], V[2], V[3]
         # (x == false) / (x == true)
-        if op in ("Eq", "Ne") and b[0] == "const" and b[1] in (0, 1) and looks_bool(a):
-            inner_truth = (b[1] == 1) == (op == "Eq")
+        if op in ("Eq", "Ne") and b[0] == "const" and type(b[1]) is bool:
+            inner_truth = (b[1] is True) == (op == "Eq")
             return canon_bool(a, truth == inner_truth)
         # canonical: use Lt / Le / Eq only
         if op in ("Ge", "Gt", "Ne"):
